@@ -476,7 +476,7 @@ func knownSeenSigs(l []*sigInfo) []*sigInfo {
 func determinismSlice(bin, tier string, rng *core.Rng, seeds, procs int, to time.Duration) string {
 	type res struct {
 		kase, raw string
-		err      string
+		err       string
 	}
 	var mu sync.Mutex
 	var wg sync.WaitGroup
